@@ -293,10 +293,71 @@ func (g *grammarCtx) keywordRule(r *RuleResult, side string) {
 					}
 				}
 			}
+			// (d) the Name check sits in the callers: the token is the look-ahead, nothing is consumed in this function
+			// before the comparison, and every call of this function lies under Kind == Name of the look-ahead with
+			// nothing consumed between that test and the call
+			if src == "peek" && srcCall != nil && fn.Parent() == nil && !g.consumedBefore(fn, srcCall) {
+				calls := callsTo(g.m.fns, fn)
+				okAll := len(calls) > 0
+				for _, site2 := range calls {
+					okSite := false
+					for _, cd := range condsAt(site2.Block()) {
+						kb, ok := cd.V.(*ssa.BinOp)
+						if !ok || !((kb.Op == token.EQL && cd.True) || (kb.Op == token.NEQ && !cd.True)) {
+							continue
+						}
+						ktok, kf, ok := g.tokenField(kb.X)
+						if !ok || kf != "Kind" {
+							continue
+						}
+						if k, ok := constInt(kb.Y); !ok || k != nameK {
+							continue
+						}
+						ksrc, kcall := g.tokenSource(ktok)
+						if ksrc == "peek" && kcall != nil && !g.consumptionBetween(kcall, site2) {
+							okSite = true
+						}
+					}
+					if !okSite {
+						okAll = false
+					}
+				}
+				if okAll {
+					r.OK(site, "Kind == Name is tested on the look-ahead by every caller, nothing consumed in between")
+					return
+				}
+			}
 			// a value computed from the comparison but not branched on here (e.g. a && chain): look at phi users — treat as unjustified
 			r.Fail(in.Pos(), p.FuncName(fn), fmt.Sprintf("token text compared with %q without a Name check", kw), fmt.Sprintf("a token whose text is %q is accepted as the keyword whatever its kind: a quoted string \"%s\" (or block string) in this position parses as the keyword, which the grammar does not allow", kw, kw))
 		})
 	}
+}
+
+// consumedBefore: some path from fn's entry to instruction `to` passes a call that may consume a token.
+func (g *grammarCtx) consumedBefore(fn *ssa.Function, to ssa.Instruction) bool {
+	found := false
+	allInstrs(fn, func(in ssa.Instruction) {
+		if found || in == to {
+			return
+		}
+		ci, ok := in.(ssa.CallInstruction)
+		if !ok {
+			return
+		}
+		consumes := false
+		for _, cal := range g.f.calleesOf[ci] {
+			if g.f.mayConsume[cal] {
+				consumes = true
+			}
+		}
+		if !consumes {
+			return
+		}
+		if _, ok := reachesWithout(in, func(x ssa.Instruction) bool { return x == to }, func(x ssa.Instruction) bool { return false }); ok {
+			found = true
+		}
+	})
+	return found
 }
 
 // decisionRule is R7: no branch in the parser depends on prev, positions or comments.
